@@ -281,7 +281,7 @@ def check_c20(tier, seed):
                 'incl. defaults before non-defaults x prefix x cav x override x 4 initialisations x 3 bodies x owner), 1404 '
                 'constructors, 18 destructors, 24 namespace/struct/class blocks; SameEntity and NoDefWhenInitialised are TLC '
                 'invariants; the real as_decl/as_def/str() are tokenised and compared with the model token sequences; '
-                'compositions of <=4 well-formed members in a class in a namespace are compiled with g++ -fsyntax-only.')
+                'compositions of <=4 well-formed members in a class in a namespace are compiled with g++ -fsyntax-only. Also: blocks filled in place next to sibling blocks, re-rendering after a field was changed and restored, copies of rendered descriptions, constructor owner named like a parameter type, the shortcut creators (fqn_t, *_t) against the explicit constructions.')
     pools = {}
     for mode in ('function', 'ctor', 'dtor', 'block', 'parts'):
         res = chk.tlc('CppGenCases', f'CppGen_{mode}.cfg')
